@@ -227,7 +227,7 @@ Definition wf_b (t : pt) : bool := repr_inv_b (map snd (paxes t)) (paxes t) (vax
 
 Definition compare_pre_b (next : positive) (t u : pt) : bool :=
   let '(u', next') := freshened xval next t u in
-  wf_b t && wf_b u && wf_b u' && pt_isdisjoint xval t u' && overlap_exact_b next' t u'.
+  wf_b t && wf_b u && overlap_exact_b next' t u'.
 
 (** * check function (model side of the correspondence)
     input: mode (0 equal, 1 allclose, 2 equal_default, 3 allclose_default), rtol, atol, equal_nan,
@@ -235,7 +235,9 @@ Definition compare_pre_b (next : positive) (t u : pt) : bool :=
     (0 False, 1 True, 2 exception).
     verdicts: 1 = implementation says True but the denoted dense tensors differ in some cell (or in shape),
     2 = implementation says False but they agree everywhere, 3 = exception,
-    10 = implementation differs from the model, 11 = model failed, 20 = malformed input. *)
+    10 = implementation differs from the model, 11 = model failed, 20 = malformed input,
+    30 = everything agrees but the premise [compare_pre_b] of the correctness theorem is false for this pair
+    (informative: the theorem does not speak about the pair; not expected on typed pairs). *)
 Definition spec_cmp (mode : nat) (rtol atol : Qc) (equal_nan : bool) : xval -> xval -> bool :=
   match mode with
   | 0 | 2 => xeq_num
@@ -279,7 +281,9 @@ Definition c13_check (x : nat * Q * Q * bool * wtensor * wtensor * nat) : nat :=
                | _ => Ok (allclose_default_model rt at_ t)
                end in
       match m with
-      | Ok b => if Nat.eqb impl (if b then 1 else 0) then 0 else 10
+      | Ok b => if Nat.eqb impl (if b then 1 else 0)
+                then (if (mode <? 2) && nat_list_eqb (shape xval t) (shape xval u) && negb (compare_pre_b next t u) then 30 else 0)
+                else 10
       | Fail _ => 11
       end.
 
